@@ -11,6 +11,9 @@
 (*           components) | flat (13.5+: template + template_variables)     *)
 (*   wh      how templates refer to the webhook result: none | old         *)
 (*           (@webhook = the JSON body, < 13.3) | new (@webhook.json)      *)
+(*   wht     the same for the TRANSLATIONS of those templates (a translation   *)
+(*           may refer to the webhook where the base text does not, and    *)
+(*           the other way round)                                           *)
 (*   rname / cname   result and category names: ok | long (beyond the      *)
 (*           limit that the current version validates)                     *)
 (* Step(v) is migration to version v.  MigrateTo(t) applies the steps      *)
@@ -24,12 +27,13 @@ Shapes == {"none", "v0", "uuid", "comp", "flat"}
 ShapeAt(v) == IF v = 0 THEN "v0" ELSE IF v <= 3 THEN "uuid" ELSE IF v = 4 THEN "comp" ELSE "flat"
 Names  == {"ok", "long"}
 
-Defs == [ver : 0..Latest, lang : Langs \cup {"und"}, tpl : Shapes, wh : {"none", "old", "new"}, rname : Names, cname : Names]
+Defs == [ver : 0..Latest, lang : Langs \cup {"und"}, tpl : Shapes, wh : {"none", "old", "new"}, wht : {"none", "old", "new"}, rname : Names, cname : Names]
 
 \* what a definition valid at its version looks like
 Valid(d) ==
   /\ (d.tpl # "none" => d.tpl = ShapeAt(d.ver))
   /\ (d.wh = "old" => d.ver < 3) /\ (d.wh = "new" => d.ver >= 3)
+  /\ (d.wht = "old" => d.ver < 3) /\ (d.wht = "new" => d.ver >= 3)
   /\ (d.ver >= 2 => d.lang \in {"eng", "und"})
   /\ (d.ver < 2 => d.lang # "und")
   /\ (d.ver = Latest => d.rname = "ok" /\ d.cname = "ok")
@@ -38,7 +42,7 @@ Step(v, d) ==
   LET e == [d EXCEPT !.ver = v] IN
   CASE v = 1 -> [e EXCEPT !.tpl = IF d.tpl = "v0" THEN "uuid" ELSE d.tpl]
     [] v = 2 -> [e EXCEPT !.lang = IF d.lang \in {"base", ""} THEN "und" ELSE d.lang]
-    [] v = 3 -> [e EXCEPT !.wh = IF d.wh = "old" THEN "new" ELSE d.wh]
+    [] v = 3 -> [e EXCEPT !.wh = IF d.wh = "old" THEN "new" ELSE d.wh, !.wht = IF d.wht = "old" THEN "new" ELSE d.wht]
     [] v = 4 -> [e EXCEPT !.tpl = IF d.tpl = "uuid" THEN "comp" ELSE d.tpl]
     [] v = 5 -> [e EXCEPT !.tpl = IF d.tpl = "comp" THEN "flat" ELSE d.tpl]
     [] v = 6 -> [e EXCEPT !.rname = "ok", !.cname = "ok"]
